@@ -906,6 +906,11 @@ func (g *coreGen) probeStmts() []any {
 	out = append(out, pr(str("od"), call("od", call("gm", vr("o0"), str("k")), num(6)), vr("o0")))
 	out = append(out, pr(str("bmp"), call("bmp", m(cn("asg", "n", "g2", "op", "=", "e", num(4))))), pr(str("bmp2"), vr("g2")))
 	out = append(out, ex(cn("call", "f", "pr", "args", []any{num(2)})), pr(str("pr2"), call("pr", num(2))))
+	// arguments are copied as they are evaluated: a later argument that changes the variable, an argument that is an
+	// assignment, a surplus argument with an effect; the callee assigns its parameter
+	out = append(out, ex(cn("call", "f", "p2", "args", []any{vr("g0"), m(cn("inc", "n", "g0", "op", "++", "post", true))})), pr(str("g0"), vr("g0")))
+	out = append(out, ex(cn("call", "f", "p2", "args", []any{m(cn("asg", "n", "g1", "op", "+=", "e", num(2))), vr("g1"), m(cn("inc", "n", "g2", "op", "--", "post", false))})), pr(str("g12"), vr("g1"), vr("g2")))
+	out = append(out, ex(cn("call", "f", "p2", "args", []any{m(cn("idx", "n", "o0", "key", str("bc")))})), pr(str("o0"), vr("o0")))
 	// bound names are values; a literal-only match evaluated with descending subjects
 	out = append(out, m(cn("expr", "e", m(cn("match", "e", vr("r1"), "cases", []any{m(cn("case", "pats", []any{m(cn("parr", "items", []any{m(cn("pid", "n", "q1")), m(cn("pid", "n", "q2")), m(cn("pid", "n", "q3"))}))},
 		"bk", "block", "b", m(cn("block", "b", []any{ex(cn("asg", "n", "q1", "op", "=", "e", num(40))), ex(cn("inc", "n", "q2", "op", "++", "post", true)), pr(str("q"), vr("q1"), vr("q2"), vr("r1"))}))))})))))
@@ -976,6 +981,10 @@ func (g *coreGen) program() Node {
 		map[string]any(cn("if", "c", map[string]any(cn("bin", "op", "==", "l", map[string]any(cn("var", "n", "a")), "r", map[string]any(cn("null")))),
 			"th", map[string]any(cn("block", "b", []any{map[string]any(cn("expr", "e", map[string]any(cn("asg", "n", "a", "op", "=", "e", map[string]any(cn("var", "n", "b"))))))})), "el", map[string]any(cn("none")))),
 		map[string]any(cn("return", "e", map[string]any(cn("var", "n", "a"))))})))))
+	// p2 shows what its two parameters received
+	fns = append(fns, map[string]any(cn("fn", "name", "p2", "params", []any{"a", "b"}, "body", map[string]any(cn("block", "b", []any{
+		map[string]any(cn("print", "args", []any{map[string]any(cn("str", "v", "p2")), map[string]any(cn("var", "n", "a")), map[string]any(cn("var", "n", "b"))})),
+		map[string]any(cn("expr", "e", map[string]any(cn("asg", "n", "a", "op", "=", "e", map[string]any(cn("num", "v", 99))))))})))))
 	// pr prints a line whose last argument recurses into the same print statement
 	fns = append(fns, map[string]any(cn("fn", "name", "pr", "params", []any{"a"}, "body", map[string]any(cn("block", "b", []any{
 		ifle("a", cn("return", "e", map[string]any(cn("num", "v", 0)))),
